@@ -53,13 +53,13 @@ CHECKS = {
 
 
 CHECKS.update({
- "C02": ("HIST", "exploration",
-   "Seeded calls of every non-terminating severity through every entry point (also the package-level functions) with generated well-formed and malformed argument lists of every Go kind, over three formats, random flags, logger levels and 1-3 destinations per class; the per-destination I/O history during each call is the observable: no panic, exactly one Write per selected destination ending in a newline, none when not admitted, a single newline byte for blank Print/Println. The pool tape recycles buffers and attribute slices between calls.",
+ "C02": ("HIST+CONC", "exploration",
+   "Seeded calls of every non-terminating severity through every entry point (also the package-level functions) with generated well-formed and malformed argument lists of every Go kind, over three formats, random flags, logger levels and 1-3 destinations per class; the per-destination I/O history during each call is the observable: no panic, exactly one Write per selected destination ending in a newline, none when not admitted, a single newline byte for blank Print/Println. The pool tape recycles buffers and attribute slices between calls; a quarter of the episodes issue the same calls from 2-3 concurrent caller tasks under the seeded scheduler.",
    "The argument space itself is workload generation; the simulation ingredients are the recorded I/O history per destination and the pool-recycling tape. Admission and selection come from the C01/C03 reference models. Values whose own methods panic and cyclic values are excluded by the statement.",
    "deterministic simulation: per-call I/O histories at simulated destinations, pool-recycling tape, reference admission and routing models", "DESIGN.md §5 C02"),
  "C08": ("CONC+CONC-race", "exploration",
-   "Seeded search over schedules of 1-64 caller tasks: exactly one task runs at a time and a tape decides who runs at every user-callback boundary (attribute Key/Value, String, Error, context Value, Write entry/exit, stalls), so preemption happens inside the sort, dedupe and serialisation of a record. Every payload must be the complete record of exactly one call (unique token and values), per-destination conservation must hold, and the same workloads run in a race-transparent world (tasks parked by spinning in norace code, GOMAXPROCS=1) where the Go race detector must stay silent.",
-   "Preemption points are callback boundaries only. The race detector keeps a bounded access history (race episodes are short). In the race world the real sync.Pool runs, so pooled-object choice is not on the tape there (replay retries up to 8 times).",
+   "Seeded search over schedules of 1-64 caller tasks: exactly one task runs at a time and a tape decides who runs at every user-callback boundary (attribute Key/Value, String, Error, context Value, Write entry/exit, stalls), so preemption happens inside the sort, dedupe and serialisation of a record. Every payload must be the complete record of exactly one call (unique token and values), per-destination conservation must hold, and the same workloads run in a race-transparent world (tasks parked by spinning in norace code, GOMAXPROCS=1) where the Go race detector must stay silent. Scheduling styles are mixed per episode: stay-probability, PCT-like d preemptions at random depths, and both in a world built with overlay rule R4 where every function entry of package slog (463 sites) is a yield point.",
+   "Preemption points are callback boundaries (all episodes) and function entries of package slog (fine-world episodes); a switch between two statements without a call in between is reachable only for the race detector. The race detector keeps a bounded access history (race episodes are short). In the race world the real sync.Pool runs, so pooled-object choice is not on the tape there (replay retries up to 8 times).",
    "deterministic simulation: seeded scheduler over real goroutines, schedule tape, destination stalls, happens-before race detection made schedule-deterministic", "DESIGN.md §5 C08, §2.4"),
  "C09": ("CONC", "exploration",
    "The same probe call (fixed timestamp through WriteThru, fixed call site) is issued in the pristine world process and again after seeded histories of 0-200 other calls on 1-4 tasks; the pool tape decides whether the probe is formatted in a fresh, the most recently recycled or an older context; payloads must be byte-identical.",
